@@ -53,6 +53,7 @@ func LoadProgram(repo, tier string, env []string, overlay map[string][]byte) *Pr
 	if slotFile == nil {
 		acquireSlot()
 	}
+	plainVarCache = map[*ssa.Alloc]bool{} // do not retain previously loaded programs (selftest loads many)
 	t0 := time.Now()
 	os.Unsetenv("GOWORK")
 	cfg := &packages.Config{
